@@ -177,6 +177,12 @@ Exit == /\ phase = "search" /\ ~LoopCond
 Next == Extend \/ Start \/ Iterate \/ Raise \/ Exit
 Spec == Init /\ [][Next]_vars
 
+(* the input on which the unchanged code raises ValueError (D10), as a fixed initial condition *)
+D10Input == << [s |-> 2, e |-> 4, size |-> 32, al |-> 128, eq |-> 0], [s |-> 0, e |-> 2, size |-> 16, al |-> 128, eq |-> 0],
+               [s |-> 1, e |-> 4, size |-> 32, al |-> 16, eq |-> 0], [s |-> 3, e |-> 3, size |-> 32, al |-> 64, eq |-> 0],
+               [s |-> 0, e |-> 1, size |-> 80, al |-> 128, eq |-> 0] >>
+SpecD10 == (R = D10Input /\ phase = "build" /\ par = [maxit |-> 0, limit |-> 0] /\ h = H0(<<>>)) /\ [][Start \/ Iterate \/ Raise \/ Exit]_vars
+
 Refines == A!SpecR
 InvNoOverlapLive == A!InvNoOverlapLive
 InvAligned == A!InvAligned
